@@ -479,7 +479,7 @@ def op_decode(data, fl, si, conv=False, as_bytearray=False, **kw):
     form = kw.get("rec_form", (len(data) * 7 + sum(data[:4]) + fl + 2 * si) % 4)
 
     def call():
-        arg = bytearray(data) if as_bytearray else data
+        arg = (memoryview(bytes(data)) if as_bytearray == "view" else bytearray(data)) if as_bytearray else data
         if not conv:
             return tlv.decode(arg, flatten=fl, simple=si)
         rec = make_recorder(form)
